@@ -41,7 +41,7 @@ def seeded_table():
         meta = json.load(open(os.path.join(VERIF, "seeded", name, "meta.json")))
         r = res.get(name, {})
         chk = [v for k, v in r.items() if k.startswith("check_") and isinstance(v, dict)]
-        verdict = "not run yet" if not chk else ("VIOLATION" if any(c["rc"] == 1 for c in chk) else "**missed**")
+        verdict = "obsolete (see meta.json)" if meta.get("obsolete") else "not run yet" if not chk else ("VIOLATION" if any(c["rc"] == 1 for c in chk) else "**missed**")
         conc = "yes" if any(c.get("concrete_replay") for c in chk) else ("no" if chk else "")
         demo = "%s / %s" % ("yes" if r.get("demo_with_change_rc") == 1 else "?", "yes" if r.get("demo_on_clean_tree_rc") == 0 else "?")
         rows.append("| %s | %s | %s | %s | %s | %s | %s |" % (name, meta["property"], meta.get("what", "").replace("|", "/"),
